@@ -15,10 +15,11 @@ Proof. exact below_stop_antitone. Qed.
 Print Assumptions C26_below_stop_antitone.
 
 Theorem C26_ranges_sound_complete :
-  forall w nullable keys rs, (length rs <= w)%nat ->
+  forall w nullable encs keys rs, (length rs <= w)%nat ->
     Forall (fun t => length t = w) keys -> StronglySorted (fun a b => cmp_key a b <> Gt) keys ->
+    Forall (fun e : Z * Z => fst e <= snd e) encs ->
     match build_range w rs with
-    | Some r => iter_range nullable keys r = filter (sat rs) keys
+    | Some r => iter_range nullable encs keys r = filter (sat rs) keys
     | None => filter (sat rs) keys = []
     end.
 Proof. exact ranges_sound_complete. Qed.
